@@ -357,6 +357,8 @@ type verifC17World struct {
 	nCommit, nPromote, nComplete, nAbort, nBadCutover, nExpiredCutover, nStaleRejected int
 	nSecondCreate, nGC, nDirect, nForeignFence, nReset, nReplay, nFailed, nIdemClear  int
 	nAbortAfterCut, nSteps                                                            int
+	// embedded leader transfer inside a replica replacement
+	nEmbStart, nEmbCommit, nEmbDone, nEmbAbortPre, nEmbAbortPostFresh, nEmbReenter int
 	keyParts                                                                          []string
 }
 
@@ -466,7 +468,21 @@ func verifC17IsLT(k metadb.ChannelMigrationKind) bool {
 	return k == metadb.ChannelMigrationKindLeaderTransfer || k == metadb.ChannelMigrationKindLeaderFailover
 }
 
+// verifC17LTMode: the task currently follows the leader-transfer phase
+// machine: a leader transfer / failover task, or a replica replacement that
+// is running its embedded leader transfer (its source replica was the channel
+// leader; pkg/slot/FLOW.md "Replica replace 嵌入式 leader transfer"). The
+// production store keys the same decisions on task.EmbeddedLeaderTransfer
+// (migrationFencePhase, migrationClearFenceTransition,
+// channelMigrationDesiredLeader in pkg/cluster/channels/migration_store.go).
+func verifC17LTMode(t metadb.ChannelMigrationTask) bool {
+	return verifC17IsLT(t.Kind) || (t.Kind == metadb.ChannelMigrationKindReplicaReplace && t.EmbeddedLeaderTransfer)
+}
+
 func verifC17DesiredLeader(t metadb.ChannelMigrationTask) uint64 {
+	if t.EmbeddedLeaderTransfer && t.EmbeddedDesiredLeader != 0 {
+		return t.EmbeddedDesiredLeader
+	}
 	if t.DesiredLeader != 0 {
 		return t.DesiredLeader
 	}
@@ -498,8 +514,18 @@ func (w *verifC17World) bAdvance(t metadb.ChannelMigrationTask, phase metadb.Cha
 		note: fmt.Sprintf("->%d/%d", phase, status)}
 }
 
+// bAdvanceEmbedded: the replica-replace executor found that the source replica
+// is the current channel leader and persists the decision to move leadership
+// to `desired` first, inside the same task (Advance.EmbeddedDesiredLeader).
+func (w *verifC17World) bAdvanceEmbedded(t metadb.ChannelMigrationTask, desired uint64) *verifC17Req {
+	r := w.bAdvance(t, metadb.ChannelMigrationPhaseProbeTarget, metadb.ChannelMigrationStatusRunning, metadb.ChannelMigrationCutoverProof{})
+	r.advance.EmbeddedDesiredLeader = desired
+	r.note += fmt.Sprintf(" embedded->%d", desired)
+	return r
+}
+
 func verifC17FencePhase(t metadb.ChannelMigrationTask) metadb.ChannelMigrationPhase {
-	if verifC17IsLT(t.Kind) {
+	if verifC17LTMode(t) {
 		if t.Phase == metadb.ChannelMigrationPhaseWriteFence {
 			return metadb.ChannelMigrationPhaseDrainLeader
 		}
@@ -513,7 +539,7 @@ func verifC17FencePhase(t metadb.ChannelMigrationTask) metadb.ChannelMigrationPh
 
 func (w *verifC17World) bSetFence(t metadb.ChannelMigrationTask, m metadb.ChannelRuntimeMeta) *verifC17Req {
 	reason := uint8(1)
-	if t.Kind == metadb.ChannelMigrationKindReplicaReplace {
+	if !verifC17LTMode(t) {
 		reason = 2
 	}
 	q := &metadb.ChannelMigrationFenceRequest{
@@ -527,7 +553,7 @@ func (w *verifC17World) bSetFence(t metadb.ChannelMigrationTask, m metadb.Channe
 
 func (w *verifC17World) bReset(t metadb.ChannelMigrationTask, m metadb.ChannelRuntimeMeta, nowMS int64) *verifC17Req {
 	phase := metadb.ChannelMigrationPhaseWarmCatchUp
-	if verifC17IsLT(t.Kind) {
+	if verifC17LTMode(t) {
 		phase = metadb.ChannelMigrationPhaseWriteFence
 	}
 	q := &metadb.ChannelMigrationResetFenceRequest{
@@ -575,7 +601,14 @@ func (w *verifC17World) bClear(t metadb.ChannelMigrationTask, m metadb.ChannelRu
 		Status: metadb.ChannelMigrationStatusCompleted, Phase: metadb.ChannelMigrationPhaseClearFence,
 		UpdatedAtMS: up, CompletedAtMS: up,
 	}
-	return &verifC17Req{kind: "clearFence", channel: t.ChannelID, taskID: t.TaskID, clear: q, guard: &q.Guard, rguard: &q.RuntimeGuard}
+	note := ""
+	if t.Kind == metadb.ChannelMigrationKindReplicaReplace && t.EmbeddedLeaderTransfer && t.Phase == metadb.ChannelMigrationPhaseVerifyNewLeader {
+		// migrationClearFenceTransition: the embedded transfer is done, the
+		// replacement itself resumes at AddLearner
+		q.Status, q.Phase, q.CompletedAtMS = metadb.ChannelMigrationStatusRunning, metadb.ChannelMigrationPhaseAddLearner, 0
+		note = "embedded"
+	}
+	return &verifC17Req{kind: "clearFence", channel: t.ChannelID, taskID: t.TaskID, clear: q, guard: &q.Guard, rguard: &q.RuntimeGuard, note: note}
 }
 
 func (w *verifC17World) bAbort(t metadb.ChannelMigrationTask, m metadb.ChannelRuntimeMeta) *verifC17Req {
@@ -897,6 +930,16 @@ func verifC17Judge(rt *rapid.T, w *verifC17World, pre, post verifC17State, r *ve
 			if tPost.Status == metadb.ChannelMigrationStatusFailed {
 				w.nFailed++
 			}
+			// the embedded-transfer decision is persisted only by an Advance that carries it
+			if tPre.EmbeddedLeaderTransfer != tPost.EmbeddedLeaderTransfer || tPre.EmbeddedDesiredLeader != tPost.EmbeddedDesiredLeader {
+				if r.kind != "advance" || r.advance.EmbeddedDesiredLeader == 0 || !tPost.EmbeddedLeaderTransfer || tPost.EmbeddedDesiredLeader != r.advance.EmbeddedDesiredLeader {
+					fail("task-only command changed the embedded leader-transfer decision inconsistently")
+				}
+				w.nEmbStart++
+				if tPre.Phase == metadb.ChannelMigrationPhaseAddLearner {
+					w.nEmbReenter++
+				}
+			}
 		}
 	case "setFence":
 		if memberChanged || epochChanged {
@@ -928,6 +971,23 @@ func verifC17Judge(rt *rapid.T, w *verifC17World, pre, post verifC17State, r *ve
 		if !taskSame && hasPost && tPost.Status == metadb.ChannelMigrationStatusCompleted {
 			w.nComplete++
 		}
+		if r.kind == "clearFence" && (!taskSame || !metaSame) && r.clear.Status != metadb.ChannelMigrationStatusCompleted {
+			// FLOW.md: "embedded leader transfer 的 clear 只能回到 AddLearner" and
+			// "embedded clear 只清 fence/proof 并回到 AddLearner": the only
+			// non-completing clear ends the embedded prologue of a replica
+			// replacement after its leader commit; the replacement proper
+			// (add learner .. promote) starts over as a pre-cutover task.
+			if !hadPre || !hasPost || tPre.Kind != metadb.ChannelMigrationKindReplicaReplace || !tPre.EmbeddedLeaderTransfer ||
+				tPre.Phase != metadb.ChannelMigrationPhaseVerifyNewLeader || !w.cut[key] ||
+				tPost.Status != metadb.ChannelMigrationStatusRunning || tPost.Phase != metadb.ChannelMigrationPhaseAddLearner ||
+				tPost.EmbeddedLeaderTransfer || tPost.EmbeddedDesiredLeader != 0 || tPost.IsTerminal() ||
+				tPost.FenceToken != "" || tPost.FenceVersion != 0 || tPost.DrainedFenceVersion != 0 {
+				fail("non-completing clear fence applied outside the end of a committed embedded leader transfer, or left the task inconsistent")
+			}
+			delete(w.cut, key)
+			delete(w.reopened, key)
+			w.nEmbDone++
+		}
 	case "commit":
 		if !reflect.DeepEqual(mPre.Replicas, mPost.Replicas) || !reflect.DeepEqual(mPre.ISR, mPost.ISR) || mPre.ChannelEpoch != mPost.ChannelEpoch {
 			fail("commit changed replicas/ISR/channel epoch")
@@ -948,6 +1008,12 @@ func verifC17Judge(rt *rapid.T, w *verifC17World, pre, post verifC17State, r *ve
 			}
 			w.cut[key] = true
 			w.nCommit++
+			if tPre.Kind == metadb.ChannelMigrationKindReplicaReplace {
+				if !tPre.EmbeddedLeaderTransfer {
+					fail("leader transfer committed by a replica replacement that is not running an embedded leader transfer")
+				}
+				w.nEmbCommit++
+			}
 		} else if !ok && hadPre && tPre.Phase == metadb.ChannelMigrationPhaseCommitLeaderMeta {
 			w.nBadCutover++
 			if why == "fence expired" {
@@ -991,6 +1057,13 @@ func verifC17Judge(rt *rapid.T, w *verifC17World, pre, post verifC17State, r *ve
 	case "abort":
 		if mPre.Leader != mPost.Leader || mPre.LeaderEpoch != mPost.LeaderEpoch || !reflect.DeepEqual(mPre.ISR, mPost.ISR) {
 			fail("abort changed leader/leader epoch/ISR")
+		}
+		if hadPre && tPre.Kind == metadb.ChannelMigrationKindReplicaReplace && tPre.EmbeddedLeaderTransfer && tPre.IsActive() && !stale {
+			if w.cut[key] {
+				w.nEmbAbortPostFresh++
+			} else {
+				w.nEmbAbortPre++
+			}
 		}
 		if w.cut[key] {
 			w.nAbortAfterCut++
@@ -1621,6 +1694,13 @@ func verifC17Report(k *kit.Case, w *verifC17World, prefix string) {
 	k.LabelIf(w.nComplete > 0, prefix+"task completed (fence cleared)")
 	k.LabelIf(w.nAbort > 0, prefix+"task aborted")
 	k.LabelIf(w.nAbortAfterCut > 0, prefix+"abort attempted after commit/promote")
+	k.LabelIf(w.nEmbStart > 0, prefix+"embedded leader transfer started (replica-replace source is leader)")
+	k.LabelIf(w.nEmbReenter > 0, prefix+"embedded leader transfer re-entered from AddLearner")
+	k.LabelIf(w.nEmbCommit > 0, prefix+"embedded leader transfer committed")
+	k.LabelIf(w.nEmbDone > 0, prefix+"embedded leader transfer finished (clear -> AddLearner)")
+	k.LabelIf(w.nEmbAbortPre > 0, prefix+"fresh abort during embedded transfer before its commit")
+	k.LabelIf(w.nEmbAbortPostFresh > 0, prefix+"fresh abort between embedded commit and embedded clear")
+	k.LabelIf(w.nEmbDone > 0 && w.nPromote > 0, prefix+"history has embedded transfer finished and a promote")
 	k.LabelIf(w.nSecondCreate > 0, prefix+"create rejected while another task active")
 	k.LabelIf(w.nStaleRejected > 0, prefix+"stale-guard command rejected")
 	k.LabelIf(w.nForeignFence > 0, prefix+"command issued while another task's fence is held")
